@@ -72,8 +72,8 @@ where
                     break;
                 },
                 Err(err) => {
+                    // A failed request must not stop background maintenance
                     error!("ObserverWorker unexpected error: {:?}", err);
-                    panic!("ObserverWorker unexpected error: {:?}", err);
                 }
             }
         }
